@@ -31,7 +31,8 @@ RULE = (
     "directories whose names contain '.npz' / '.npy'): "
     "accumulate (float32/float64, any sign and scale, vectors or matrices), save (key / compress / overwrite "
     "varied), load-and-apply, save-with-no-statistics, and pre-seeding of a path with prior durable content "
-    "(numpy.savez / savez_compressed archives with unrelated entries, numpy.save files, raw bytes). "
+    "(numpy.savez / savez_compressed archives with unrelated entries, numpy.save files, raw bytes); some runs start "
+    "with two data sets of equal length saved one after the other to the same target / key. "
     "Non-trivial = at least one load after a save. Distinct = distinct signatures (sequence of operation kinds "
     "with path kind, key/compress/overwrite flags and whether the path already existed)."
 )
